@@ -366,7 +366,40 @@ def c_op_history(ctx, args):
     return history.operator_history(ctx, kind, n, seed, steps, be)
 
 
-CHECKS = {'ctor_fresh': __import__('props.C17', fromlist=['c_ctor_fresh']).c_ctor_fresh, 'op_history': c_op_history, 'state_arith': c_state_arith, 'reduce_large': c_reduce_large, 'torch_expr': c_torch_expr, 'expr': c_expr, 'trace': c_trace, 'qutip': c_qutip, 'linear': c_linear}
+def c_reduce_tol(ctx, args):
+    """reduce(tol) merges equal strings, folds the phases in and drops exactly the merged terms with |c| <= tol: tol = 0 drops nothing that is not exactly zero,
+    whatever the units of the coefficients; a large tol drops what is below it and nothing else"""
+    be, n, terms, tol = args          # terms [[g, p, [re, im]], ...]
+    if be == 'np':
+        mk = lambda ts: pc.PauliPolynomial(NP.GS([t[0] for t in ts], 2 * n), np.array([t[1] for t in ts], dtype=np.int_)).set_cs(np.array([complex(*t[2]) for t in ts]))
+        eps = 1e-18
+    else:
+        import torch, torchclifford as tc, vlib.impl_torch as TT
+        mk = lambda ts: tc.paulialg.PauliPolynomial(TT.GS([t[0] for t in ts], 2 * n), TT.PS([t[1] for t in ts])).set_cs(torch.tensor([complex(*t[2]) for t in ts], dtype=torch.complex128))
+        eps = 1e-18
+    want = {}
+    for g, p, c in terms:
+        want[tuple(g)] = want.get(tuple(g), 0) + complex(*c) * 1j ** (p % 4)
+    if any(abs(abs(v) - tol) <= 1e-4 * max(abs(v), tol) for v in want.values() if tol):
+        return None          # a merged coefficient sits on the tolerance: nothing to decide
+    want = {k: v for k, v in want.items() if abs(v) > tol}
+    try:
+        r = mk(terms).reduce(tol) if tol != 'kw0' else mk(terms).reduce(tol=0)
+    except Exception as e:
+        return {'kind': 'oracle', 'where': '%s:reduce(%r) raised %s' % (be, tol, type(e).__name__), 'observed': str(e)[:100], 'expected': 'a polynomial', 'tags': ['reduce_tol']}
+    got = {}
+    for g, p, c in zip(r.gs, r.ps, r.cs):
+        k = tuple(int(v) for v in g)
+        got[k] = got.get(k, 0) + complex(c) * 1j ** (int(round(float(p))) % 4)
+    rel = max([abs(v) for v in want.values()] + [0.0])
+    acc = 1e-9 if be == 'np' else 1e-5          # (the port evaluates 1j ** ps in single precision)
+    if set(got) != set(want) or any(abs(got[k] - want[k]) > acc * max(rel, eps) for k in want):
+        return {'kind': 'oracle', 'where': '%s:reduce(tol=%r) kept %d of the %d merged terms that are above the tolerance' % (be, tol, len(set(got) & set(want)), len(want)),
+                'observed': sorted((list(k), [v.real, v.imag]) for k, v in got.items())[:6], 'expected': sorted((list(k), [v.real, v.imag]) for k, v in want.items())[:6], 'tags': ['reduce_tol', be]}
+    return None
+
+
+CHECKS = {'reduce_tol': c_reduce_tol, 'ctor_fresh': __import__('props.C17', fromlist=['c_ctor_fresh']).c_ctor_fresh, 'op_history': c_op_history, 'state_arith': c_state_arith, 'reduce_large': c_reduce_large, 'torch_expr': c_torch_expr, 'expr': c_expr, 'trace': c_trace, 'qutip': c_qutip, 'linear': c_linear}
 
 COEFS = [1, -1, 2, -2, 3, 0.5, -0.5, 0.25, 1j, -1j, 2j, 1 + 1j, 1 - 1j, -1 + 2j, 0.5 + 0.5j, 3 - 1j, -0.75j]
 DIVS = [1, -1, 2, -2, 4, 1j, -1j, 2j, 1 + 1j, 1 - 1j, 0.5]
@@ -479,6 +512,8 @@ def run(ctx):
         if it % 3 == 0:       # ... plus a complex multiple of a (phased) identity: the term that alone decides the trace
             e2 = [4, e, [2, cfrac(rng.choice(COEFS)), [0, [0, [[0] * (2 * n), rng.randint(0, 3)]]]]]
             do(ctx, 'torch_expr', [n, e2], nontrivial=('tei', str(e2)))
+            e3 = [4, e, [2, cfrac(2 ** 22), [0, [0, [gen.rstr(rng, n, nonzero=True), 0]]]]]
+            do(ctx, 'torch_expr', [n, e3], nontrivial=('ter', str(e3)))
     # many qubits, local terms (fields, nearest-neighbour and periodic bonds, far-apart pairs): terms that differ only at the far end must stay apart
     for it in range(int(60 * B)):
         n = rng.choice([6, 12, 13, 14, 16, 20, 24])
@@ -504,3 +539,11 @@ def run(ctx):
     for it in range(int(60 * B)):
         kinds, bes = ['pauli', 'mono', 'list', 'poly'], ['np', 'np', 'torch']
         do(ctx, 'op_history', [kinds[it % len(kinds)], rng.randint(1, 3), rng.randrange(10 ** 6), rng.randint(4, 12), bes[(it // len(kinds)) % len(bes)]], nontrivial=('oph', it))
+    # reduce with an explicit tolerance: 0 (positional and by keyword) on coefficients in tiny units, and tolerances that cut through the coefficients
+    for it in range(int(40 * B)):
+        n = rng.randint(1, 3)
+        unit = rng.choice([2.0 ** -40, 2.0 ** -50, 2.0 ** -24, 1.0])
+        terms = [[gen.rstr(rng, n) if rng.random() < 0.7 else [0] * (2 * n), rng.randint(0, 3), [rng.choice([1, -1, 2, 0.5, 3]) * unit, rng.choice([0, 0, 1, -0.5]) * unit]] for _ in range(rng.randint(1, 5))]
+        be = ['np', 'torch'][it % 2]
+        tol = [0, 0, 1.5 * unit, 0.75 * unit][it % 4]
+        do(ctx, 'reduce_tol', [be, n, terms, tol], nontrivial=('rt', it))
